@@ -3,7 +3,7 @@ CONSTANTS SmallIds = {1} Widths = {} MaxTok = 1
   Texts <- CTexts HRs <- CHRs
   MaxIn = 2 Kinds = {"h", "s", "c", "f", "l", "o"} MsgIds = {1} NextRVs <- CRVs Whats <- CWhats
   MaxQ = 2 Hows = {"shut"} MaxSent = 2 Ops <- OpsQ
-CONSTRAINT Bound
+CONSTRAINT BoundT
 VIEW SkelQ
 ACTION_CONSTRAINT Emit
 CHECK_DEADLOCK FALSE
